@@ -26,6 +26,10 @@ def _copy(obj):
         return ("list", list(obj))
     if type(obj) is set:
         return ("set", list(obj))
+    if type(obj) is bytearray:
+        return ("bytearray", bytes(obj))
+    if type(obj).__name__ == "deque" and type(obj).__module__ == "collections":
+        return ("deque", list(obj))
     return None
 
 
@@ -34,6 +38,8 @@ def _same(kind_items, obj):
     if kind == "dict":
         cur = list(dict.items(obj))
         return len(cur) == len(items) and all(a[0] is b[0] or (type(a[0]) is str and a[0] == b[0]) for a, b in zip(cur, items)) and all(a[1] is b[1] for a, b in zip(cur, items))
+    if kind == "bytearray":
+        return bytes(obj) == items
     cur = list(obj)
     return len(cur) == len(items) and all(a is b for a, b in zip(cur, items))
 
@@ -46,6 +52,11 @@ def _put(kind_items, obj):
             dict.__setitem__(obj, k, v)
     elif kind == "list":
         obj[:] = items
+    elif kind == "bytearray":
+        obj[:] = items
+    elif kind == "deque":
+        obj.clear()
+        obj.extend(items)
     else:
         obj.clear()
         obj.update(items)
